@@ -367,6 +367,21 @@ def _spawn_shards(pid, tier, seed, plan, timeout):
     return results, problems
 
 
+def _limit_memory():
+    """A change that makes the library allocate per *easy* sample (billions) must end as a MemoryError inside the monitored
+    call -- which R-noraise judges -- and not as an OOM kill of the whole check. The unchanged library stays far below this."""
+    try:
+        import resource
+
+        lim = int(float(os.environ.get("VERIF_MEM_GIB", 4)) * 2**30)
+        soft, hard = resource.getrlimit(resource.RLIMIT_AS)
+        if hard != resource.RLIM_INFINITY:
+            lim = min(lim, hard)
+        resource.setrlimit(resource.RLIMIT_AS, (lim, hard))
+    except Exception:
+        pass
+
+
 def main(argv=None):
     ap = argparse.ArgumentParser()
     ap.add_argument("pid")
@@ -381,6 +396,7 @@ def main(argv=None):
     seed = int(os.environ.get("VERIF_SEED", "0") or 0)
 
     faulthandler.enable()
+    _limit_memory()
     problem = _bootstrap_imports()
     if problem:
         print(f"INCONCLUSIVE property={pid} reason={problem}")
